@@ -63,6 +63,11 @@ class G:
             c = {"t": "meth", "x": F(tbl, self.ch(COLS)), "m": "between", "a": [1, 9]}
         elif r < 0.45:
             c = {"t": "meth", "x": F(tbl, self.ch(COLS)), "m": "like", "a": ["a%"]}
+        elif r < 0.53 and getattr(self, "cls", None):
+            # a scalar or IN sub-query as the right-hand side (nested statements in predicates of every clause kind)
+            sub = self.subq(self.cls)
+            c = {"t": "bin", "op": self.ch(["gt", "eq"]), "l": l, "r": sub} if self.p(0.5) else \
+                {"t": "meth", "x": F(tbl, self.ch(COLS)), "m": self.ch(["isin", "notin"]), "a": [sub]}
         return c
 
     def expr(self, tbl):
@@ -429,8 +434,9 @@ class G:
 
     def k_update(self, cls, mode):
         A = [{"group": "set", "calls": [{"m": "set", "a": [self.ch(COLS) if self.p(0.5) else F(TA, self.ch(COLS)),
-                                                           self.val() if self.p(0.8) else
-                                                           {"t": "bin", "op": "add", "l": F(TA, self.ch(COLS)), "r": 1}]}
+                                                           self.val() if self.p(0.75) else
+                                                           self.subq(cls) if self.p(0.3) else
+                                                           {"t": "bin", "op": "add", "l": F(TA, self.ch(COLS)), "r": self.ch([1, -1])}]}
                                         for _ in range(self.rng.randint(1, 3))]}]
         if self.p(0.7):
             A.append({"group": "where", "calls": [{"m": "where", "a": [self.crit(TA)]} for _ in range(self.rng.randint(1, 2))]})
